@@ -262,10 +262,7 @@ func checkProxiesCancellable(p *Prog, r *Report, rAnch, rSel, rGo *Rule) {
 		if nil == fn {
 			continue
 		}
-		top := fn
-		for nil != top.Parent() {
-			top = top.Parent()
-		}
+		top := proxyRoot(fn)
 		rAnch.OK(fnName(top), top.Pos(), "proxy")
 		ctxP := ctxParam(top)
 		if nil == ctxP {
